@@ -56,6 +56,16 @@ CHECKS["C05"] = dict(
    text="Every single nesting construct is swept over depths 1..200 (limit must exist, no holes, <= 79 accepted) and 1.5k (quick) / 40k (thorough) multiplicative combinations are parsed, printed, debug-printed, cloned, dropped and deserialized on a 2 MiB thread in a debug and a release build: the worker must survive and any accepted document must have decoded depth <= 256.",
    note="stack behaviour is that of this toolchain/platform (x86-64 Linux); the depth bound 256 is the harness' constant, above anything additive composition of per-construct limits of 80 can reach",
    design="4/C05")
+CHECKS["C11"] = dict(
+   technique="boundary enumeration plus proptest sampling over bit patterns and decimal exponents; print-parse round-trip with bit equality; generated out-of-range literals in four bases must be rejected; serde width matrix in both directions",
+   text="All i64 within 300 of 0, of every +-2^k and +-10^k, float boundary list and neighbours of every power of ten, plus 400k (quick) / 20M (thorough) generated i64/f64/f32 values go through every writer and back with bit-exact comparison; literals around the i64 edge in bases 2/8/10/16 (signs, underscores, leading zeros) and decimal floats around the overflow threshold of both signs must be accepted exactly or rejected; every integer width is exercised at its own edges in both serde directions.",
+   note="NaN payloads are not representable; NaN sign required on construction/print routes, ignored on serde routes; 128-bit serde targets are unsupported by the library and an error is accepted for them",
+   design="4/C11")
+CHECKS["C12"] = dict(
+   technique="differential testing of the two date-time recognisers over an exhaustive field-edge product, edit-distance mutants over the date-time alphabet and struct-generated values; print-parse round-trip",
+   text="Dates and times alone are enumerated over the full edge product, every February/month length of years 0000-9999 is enumerated, combined kinds are sampled (150k quick / 6M thorough) with 16 offsets and 3 delimiters, plus 200k/10M mutants and 100k/4M generated values: Datetime::from_str and the document grammar must agree on verdict and fields, and printing must yield text both accept and read back identically (also via toml_edit::Value::from and serde).",
+   note="compares the two library parsers with each other; the harness' own recogniser is only recorded to say which side is wrong",
+   design="4/C12")
 NOT_YET = {}
 
 def main():
